@@ -35,7 +35,7 @@ func verifItemPattern(it verifItem) FallbackPattern {
 	case piRest:
 		return NewFallbackPattern(NewExtraElementPattern(it.name), nil)
 	default:
-		return NewFallbackPattern(NewIdentPattern(it.name), NewIdentExpr(parser.Scanner{}, "k"))
+		return NewFallbackPattern(NewIdentPattern(it.name), NewIdentExpr(*parser.NewScanner(""), "k"))
 	}
 }
 
